@@ -21,7 +21,7 @@ import (
 
 // C05 — one compiled expression may be used from many goroutines at once.
 
-const ruleC05 = "rapid under the race detector (-race build, GOMAXPROCS=all cores): expression (union of all fragments incl. unconstrained ones, function calls with closure-captured arguments, string-join, matches()/replace() through the shared pattern cache) x document x g in 2..8 goroutines released by a start barrier x per-goroutine context and action (Select / Evaluate on the SHARED *Expr, or Compile of the same text followed by Evaluate) x r in 3..20 repetitions; plus two iterators of the shared expression advanced alternately. Oracle: (1) the race detector's log does not grow during the case, (2) no goroutine panics differently from the sequential run and the process survives (a dying process is attributed through the case journal), (3) every repetition of every goroutine observes exactly what a freshly compiled expression returns sequentially. Non-trivial: >= 2 goroutines on one *Expr and the expression has a stateful operator or a function call; distinct by (expression, document, goroutine plan). The harness does not own the scheduler: interleavings are sampled, not enumerated."
+const ruleC05 = "rapid under the race detector (-race build, GOMAXPROCS=all cores): expression (union of all fragments incl. unconstrained ones, function calls with closure-captured arguments, string-join, matches()/replace() through the shared pattern cache) x document x g in 2..8 goroutines released by a start barrier x per-goroutine context and action (Select / Evaluate on the SHARED *Expr, or Compile of the same text followed by Evaluate) x r in 3..20 repetitions; plus two iterators of the shared expression advanced alternately. Oracle: (1) the race detector's log does not grow during the case, (2) no goroutine panics differently from the sequential run and the process survives (a dying process is attributed through the case journal), (3) every repetition of every goroutine observes exactly what a freshly compiled expression returns sequentially, and for regex calls on literal arguments that sequential value equals the one computed independently with Go's regexp (what the call returns when run alone in a process). Non-trivial: >= 2 goroutines on one *Expr and the expression has a stateful operator or a function call; distinct by (expression, document, goroutine plan). The harness does not own the scheduler: interleavings are sampled, not enumerated."
 
 var (
 	uC05        = harness.NewUnit("C05", "rapid-goroutines", ruleC05)
@@ -195,6 +195,9 @@ func oracleC05(l *harness.Live) (c05Info, *harness.Failure) {
 			continue
 		}
 		want[i] = runPlan(fresh, l.Expr, l, p)
+		if alone, _ := l.Params["alone"].(string); alone != "" && want[i] != alone {
+			return info, harness.Failf(alone, want[i], "a regex call on literals: the sequential result differs from the value the call has when it is the only one ever made (computed with Go's regexp) - something remembered from an earlier call leaks into it")
+		}
 	}
 	if xast.HasCall(l.AST, "matches", "replace") {
 		// The sequential runs above have filled the shared pattern cache. Start the concurrent
@@ -266,6 +269,7 @@ func TestC05Rapid(t *testing.T) {
 		g := xgen.NewG(rt, doc)
 		var e xast.Expr
 		nodeSet := false
+		alone := "" // for regex calls on literals: the value computed independently of the engine
 		switch rapid.IntRange(0, 9).Draw(rt, "c05frag") {
 		case 2:
 			// several fresh patterns in one expression: every goroutine goes through several
@@ -300,10 +304,20 @@ func TestC05Rapid(t *testing.T) {
 			}
 			// a fresh pattern per case: the first goroutines miss the shared cache and insert while the others read
 			pat := &xast.Str{S: rapid.SampledFrom(regexPatterns).Draw(rt, "pat") + "|z{" + fmt.Sprint(rapid.IntRange(1, 900).Draw(rt, "patn")) + "}"}
+			re := regexp.MustCompile(pat.S)
 			if rapid.Bool().Draw(rt, "replace") {
-				e = &xast.Call{Name: "replace", Args: []xast.Expr{arg, pat, &xast.Str{S: rapid.SampledFrom([]string{"", "x", "$1", "[$1]"}).Draw(rt, "rep")}}}
+				rep := rapid.SampledFrom([]string{"", "x", "$1", "[$1]", "$1x", "$10", "$2$1"}).Draw(rt, "rep")
+				e = &xast.Call{Name: "replace", Args: []xast.Expr{arg, pat, &xast.Str{S: rep}}}
+				if lit, ok := arg.(*xast.Str); ok {
+					// what the call returns when it is the only one the process ever makes: Go's regexp
+					tmpl, _ := expandTemplate(rep, re.NumSubexp())
+					alone = fmt.Sprintf("%T(%v)", "", re.ReplaceAllString(lit.S, tmpl)) // as observe() renders it
+				}
 			} else {
 				e = &xast.Call{Name: "matches", Args: []xast.Expr{arg, pat}}
+				if lit, ok := arg.(*xast.Str); ok {
+					alone = fmt.Sprintf("%T(%v)", true, re.MatchString(lit.S))
+				}
 			}
 		case 1:
 			e = &xast.Call{Name: "string-join", Args: []xast.Expr{g.AxisPath(ctx, xgen.PathOpts{MaxSteps: 2, AbsShare: 4, DSlash: 3}), &xast.Str{S: ","}}}
@@ -325,6 +339,9 @@ func TestC05Rapid(t *testing.T) {
 		reps := rapid.IntRange(3, 20).Draw(rt, "reps")
 		l := &harness.Live{Property: "C05", Check: "C05/concurrent", Doc: doc, Ctx: ctx, AST: e, Expr: xast.Render(e), Flavour: flavourOf(rt),
 			Params: map[string]interface{}{"plan": plans, "reps": reps}}
+		if alone != "" {
+			l.Params["alone"] = alone
+		}
 		if _, err, _ := harness.Compile(l.Expr, nil, false); err != nil {
 			uC05.Skip()
 			return
